@@ -121,7 +121,8 @@ def run(ids, isolated=False):
         return
     if isolated:
         ct = os.path.join(SNAP, "harness", "Cargo.toml")
-        open(ct, "w").write(open(ct).read().replace('path = "/repo"', 'path = "%s"' % repo))
+        txt = open(ct).read().replace('path = "/repo"', 'path = "%s"' % repo)
+        open(ct, "w").write(txt)
         os.environ["VERIF_DEV_REPO"] = repo
     for d in sorted(glob.glob(os.path.join(SEEDED, "*"))):
         mid = os.path.basename(d)
